@@ -50,6 +50,7 @@ def dispatch (f : List String) : String :=
   | some "MULTI" => Garnish.Driver.multiCase f
   | some "WFCHK" => Garnish.Driver.wfCase f
   | some "COMPILE" => Garnish.Driver.compileCase f
+  | some "COMPILE2" => Garnish.Driver.compile2Case f
   | some "WFCHECK" => Garnish.Driver.wfProgramCase f
   | some "ABSDEPTH" => Garnish.Driver.absDepthCase f
   | some "DEPTHCHK" => Garnish.Driver.depthChkCase f
